@@ -12,6 +12,7 @@ import (
 	"io"
 	"math"
 	"path/filepath"
+	"sync/atomic"
 	"testing"
 	"time"
 
@@ -200,6 +201,7 @@ func TestVerif_C11(t *testing.T) {
 	c := vStart(t, "C11", "TestVerif_C11")
 	defer c.Finish()
 	scratch := vEnv("VERIF_SCRATCH", t.TempDir())
+	testRecordings := map[int64]*decFile{}
 	n := c.N(96, 3000)
 	for idx := int64(0); idx < n; idx++ {
 		if !c.Mine(idx) {
@@ -274,10 +276,23 @@ func TestVerif_C11(t *testing.T) {
 				}
 				c.Count("connections_after_a_reconnect", 1)
 			}
+			// a test recording requested somewhere in the stream (through the service path)
+			reqAt := -1
+			if !throttled && idx%4 == 2 && nf > 30 {
+				reqAt = int(uint64(idx) * 7919 % uint64(nf-25))
+			}
+			var rxCount int64
+			reqHook := func(name string) {
+				if name == "conn.frame.received" {
+					if k := int(atomic.AddInt64(&rxCount, 1)) - 1; k == reqAt {
+						newSnapshotRecording()
+					}
+				}
+			}
 			if throttled {
 				r.serve(pacedFeed(cam, frames, 2*time.Millisecond), nil)
 			} else {
-				r.serve(feedStream(cam, hdr, frames, cw), nil)
+				r.serve(feedStream(cam, hdr, frames, cw), reqHook)
 			}
 			if r.Err != io.EOF || r.WriteErr != nil {
 				c.Violation("connection-ended-abnormally", "", fmt.Sprintf("handleConn returned %v (write error %v)", r.Err, r.WriteErr))
@@ -285,6 +300,28 @@ func TestVerif_C11(t *testing.T) {
 			}
 			sent := indexFrames(frames)
 			mfiles := decodeDir(r.OutDir)
+			if reqAt >= 0 {
+				// the test recording (21 consecutive frames from the requested frame on) is set aside;
+				// it is judged like any other file below, but it is not a motion recording
+				var rest []*decFile
+				var testFile *decFile
+				for _, d := range mfiles {
+					sq := fileSeqs(d, cam)
+					if testFile == nil && len(sq) == 21 && sq[0] == reqAt {
+						testFile = d
+						continue
+					}
+					rest = append(rest, d)
+				}
+				if testFile == nil {
+					c.Violation("test-recording-missing", "", fmt.Sprintf("a test recording was requested before frame %d of %d; no file holding frames %d..%d was found", reqAt, nf, reqAt, reqAt+20))
+					return
+				}
+				mfiles = append(rest, testFile)
+				c.Count("connections_with_a_test_recording", 1)
+				// keep it for the per-file checks, drop it for the prediction comparison
+				testRecordings[idx] = testFile
+			}
 			cfiles := decodeDir(filepath.Join(r.OutDir, "constant-recordings"))
 			dynamic := eff.DynamicThreshold
 			for fi, d := range append(append([]*decFile{}, mfiles...), cfiles...) {
@@ -338,7 +375,7 @@ func TestVerif_C11(t *testing.T) {
 					c.Violation("frame-content-differs", "", msg)
 					return
 				}
-				if kind, msg := checkHeaderFields(d, cfg, cam, eff.TempThresh, dynamic, fi < len(mfiles)); kind != "" {
+				if kind, msg := checkHeaderFields(d, cfg, cam, eff.TempThresh, dynamic, fi < len(mfiles) && d != testRecordings[idx]); kind != "" {
 					c.Violation(kind, "", d.Name+": "+msg)
 					return
 				}
@@ -365,6 +402,16 @@ func TestVerif_C11(t *testing.T) {
 				} else {
 					c.Count("throttle_resumed_files_checked", int64(len(mfiles)-1))
 				}
+			}
+			if tf := testRecordings[idx]; tf != nil {
+				var rest []*decFile
+				for _, d := range mfiles {
+					if d != tf {
+						rest = append(rest, d)
+					}
+				}
+				mfiles = rest
+				delete(testRecordings, idx)
 			}
 			if !dynamic && !throttled {
 				exp, motion := expectRecordings(cfg, cam, frames)
